@@ -150,6 +150,7 @@ REJECTED = ['name', 'topic', 'ack_deadline_seconds', 'retain_acked_messages', 'd
 
 
 def update_locality(chk, prog):
+    DTTL, DMTTL, DATT = consts(prog)
     hs = list_handlers(prog)
     hu = [x for x in hs if x['method'] == 'UpdateSubscription'][0]
     allp = list(PATHS) + REJECTED
@@ -208,6 +209,32 @@ def update_locality(chk, prog):
             ob.verify(ex, 'masked:ordering', ex.eq(q0.v['ordered_delivery'], ex.getf(sub, 'EnableMessageOrdering')), d)
         if 'labels' in paths:
             ob.verify(ex, 'masked:labels', val_eq(ex, q0.v['labels'], ex.getf(sub, 'Labels')) if isinstance(q0.v['labels'], SymMap) else False, d)
+        def req_dur(block_nil, p, total):
+            # AsDuration of an absent message is 0
+            nil = Or(*[x for x in block_nil if x is not None]) if block_nil else False
+            return Ite(nil, 0, total)
+        subv = sub.get()
+        expp = ex.getf(subv, 'ExpirationPolicy')
+        if 'expiration_policy' in paths:
+            got = req_dur([expp.nilc, ex.getf(expp, 'Ttl').nilc], None, ttl)
+            want = Ite(ex.eq(got, 0), DTTL, got)
+            ob.verify(ex, 'masked:expiration-ttl-with-default', And(ex.eq(q0.v['ttl'], want), Or(*[ex.eq(q0.v['expires_at'], t + want) for t in stdlib.clock(ex)['nows']])), d)
+        if 'message_retention_duration' in paths:
+            got = req_dur([ex.getf(subv, 'MessageRetentionDuration').nilc], None, ret)
+            ob.verify(ex, 'masked:retention-with-default', ex.eq(q0.v['message_ttl'], Ite(ex.eq(got, 0), DMTTL, got)), d)
+        if 'retry_policy' in paths:
+            rp = ex.getf(subv, 'RetryPolicy')
+            for col, fld, tot in (('min_backoff', 'MinimumBackoff', minb), ('max_backoff', 'MaximumBackoff', maxb)):
+                fp = ex.getf(rp, fld)
+                absent = Or(rp.nilc, fp.nilc)
+                ob.verify(ex, 'masked:retry-policy-' + col, And(Implies(absent, q0.isnull(col)), Implies(Not(absent), And(Not(q0.isnull(col)), ex.eq(q0.v[col], tot)))), d)
+        if 'dead_letter_policy' in paths:
+            dlp = ex.getf(subv, 'DeadLetterPolicy')
+            cleared = Or(dlp.nilc, dlt == '')
+            t1 = db.t['Topic'][1]
+            ob.verify(ex, 'masked:dead-letter-policy', And(Implies(cleared, And(q0.isnull('dead_letter_topic_id'), q0.isnull('max_delivery_attempts'))),
+                                                           Implies(Not(cleared), And(Not(q0.isnull('dead_letter_topic_id')), ex.eq(q0.v['dead_letter_topic_id'], t1.v['id']),
+                                                                                     ex.eq(q0.v['max_delivery_attempts'], Ite(ex.eq(att, 0), DATT, att))))), d)
         if 'filter' in paths:
             f = ex.getf(sub, 'Filter')
             ob.verify(ex, 'masked:filter', Or(And(ex.eq(f, ''), q0.isnull('filter')), And(Not(q0.isnull('filter')), ex.eq(q0.v['filter'], f))), d)
